@@ -1,7 +1,7 @@
 //@ unit C02_frac
 //@ props C02 C04 C01
 //@ strength proved-unbounded
-//@ min-verified 5
+//@ min-verified 6
 //@ assume gsub_apply_lookup carries the contract read off its body (src/gsub.rs:286): it needs start + length <= glyphs.len() (it slices / indexes glyphs[start..start + length]) and, when it succeeds, returns the new length r of that segment: the run grows or shrinks by exactly r - length and start + r stays inside it. The contract is PROVED in unit C02_lookup for the multiple, ligature, context and chain-context arms (the single, alternate and reverse-chaining arms are opaque there: they do not change the length); it says nothing about `pred` because the driver passes `|_| true`
 //@ assume LayoutCache<GSUB>, LayoutTable<GSUB>, GDEFTable are opaque placeholder types in this unit (only passed through)
 //@ assume TinyVec<[char; 1]> and RawGlyphFlags are opaque stand-in types (as in C04_mult); nothing is claimed about them
@@ -136,6 +136,12 @@ pub fn gsub_apply_lookup_all(
         decreases glyphs@.len() - i,
 //@ spec
     requires old(glyphs)@.len() <= usize::MAX
+    ensures true
+//@ end
+
+//@ fn src/gsub.rs | gsub_apply_lookups
+//@ ret r
+//@ spec
     ensures true
 //@ end
 
